@@ -30,8 +30,10 @@ def from_fluxes(rng):
     basis = rng.choice(["weight", "weight", "molar"])
     P = (gen.logu(rng, 1e-6, 1.0), gen.logu(rng, 1e-6, 1.0))
     comps, fluxes, Ls = [], [], []
-    for _ in range(rng.randrange(2, 6)):
-        c = pv.Composition(p=rng.uniform(0.02, 0.98), type=basis)
+    cand = [pv.Composition(p=rng.uniform(0.02, 0.98), type=basis) for _ in range(rng.randrange(2, 6))]
+    if rng.random() < 0.3:       # the basis belongs to each point: the same number once as mass and once as mole fraction
+        cand.append(pv.Composition(p=cand[0].p, type="molar" if cand[0].type == "weight" else "weight"))
+    for c in cand:
         try:
             j = perv.calculate_partial_fluxes(T, c, PREC, Tperm, pperm, pv.Permeance(P[0]), pv.Permeance(P[1]), "NRTL")
         except Exception:  # noqa: BLE001
